@@ -354,8 +354,15 @@ async def _async_session(case: dict) -> dict:
     def arrived_now() -> int:
         return max([c for (ta, c) in arrivals if ta <= loop.time()], default=0)
 
+    def handed_over_now() -> int:
+        """bytes the transport has already handed to the protocol (the fake selector transport may deliver an arrival in
+        pieces of `max_recv` bytes, one per loop iteration: what is still in its 'kernel' queue cannot be seen by a poll)"""
+        pending = len(getattr(aio_transport, "inbox", b"")) if case.get("over") == "asyncio-adapter" else 0
+        return max(0, arrived_now() - pending)
+
     async def one_recv(T: float | None, where: str) -> str:
         jumps0 = loop.spin_jumps  # type: ignore[attr-defined]
+        handed0 = handed_over_now()
         try:
             if T is None:
                 value = await obj.recv_packet()
@@ -368,7 +375,8 @@ async def _async_session(case: dict) -> dict:
                 # cancelled scopes that poll); a receive that legitimately needs more iterations than that (hundreds of
                 # 1-byte reads) then sees its own deadline pass although no time would pass on a real loop
                 raise Inconclusive(f"{where}: the virtual clock jumped during a busy run of the receive itself")
-            judge.timeout(where, T is not None, arrived_now())
+            # a polling call (timeout 0) is judged against what had been handed to the protocol when it started
+            judge.timeout(where, T is not None, handed0 if T == 0 else arrived_now())
             return "timeout"
         except ClientClosedError as exc:
             raise Violation("client-closed-error", f"{where}: ClientClosedError although nobody closed the client: {exc}", where=where) from exc
